@@ -264,8 +264,44 @@ def c09(tier, rng, fam='C09'):
 
 # ------------------------------------------------------------------ C10 -----
 
-def c10(tier, rng, fam='C10'):
+def end_while_reader_holds_envelope(fam):
+    """the connection ends (Stop, failed write) while its read loop is between reading an envelope and acting on it
+    (held in srv.forward.window): whatever the envelope still sets off - a stream registered and its handler
+    started, a message handed over - is cancelled and awaited before Serve returns"""
     out = []
+    for how in ('stop', 'swrite'):
+        for what in ('open', 'message', 'close', 'second open'):
+            for others in (0, 2):
+                b = B(fam, 'end by %s while the read loop holds a stream %s, %d other handlers' % (how, what, others), ser=bool(others))
+                for o in range(others):
+                    b.step('sopen', c=20 + o, kind='bidi', hp=[dict(o='ctxwait'), ret(code=1, msg='ctx')])
+                hp = [dict(o='ctxwait'), ret(code=1, msg='ctx')]
+                if what != 'open':
+                    b.step('sopen', c=1, kind='bidi', hp=hp)
+                    b.q()
+                b.step('arm', gate='srv.forward.window', n=1)
+                if what == 'open':
+                    b.step('sopen', c=1, kind='bidi', hp=hp)
+                elif what == 'message':
+                    b.step('send', c=1, pay='held')
+                elif what == 'close':
+                    b.step('close', c=1)
+                else:
+                    b.step('sopen', c=2, kind='ss', hp=hp)
+                b.q()
+                b.step('fault', what=how)
+                if how == 'swrite':
+                    b.step('ucall', c=90, pay='trigger', to=500, hp=[ret(pay='t')])     # its reply is the write that fails
+                b.q()
+                b.step('rel', gate='srv.forward.window')
+                b.q()
+                b.step('adv', ms=600)
+                out.append(b.q().done())
+    return out
+
+
+def c10(tier, rng, fam='C10'):
+    out = end_while_reader_holds_envelope(fam)
     # (more unary calls than the 8 workers: the surplus waits in the read loop's hand-off)
     combos = [(0, 0), (1, 0), (0, 1), (2, 2), (10, 0), (9, 1)] if tier == 'quick' else \
         [(u, s) for u in (0, 1, 3, 8, 9, 12) for s in (0, 1, 3, 8)]
@@ -985,6 +1021,7 @@ def c06(tier, rng, fam='C06'):
     out += late_body_before_trailer(fam)
     out += unencodable_send(fam)
     out += unencodable_elsewhere(fam)
+    out += failed_opens(fam)
     out += random_programs(fam, 150 if tier == 'quick' else 3000, rng)
     return out
 
@@ -1675,6 +1712,57 @@ def concurrent_header_and_send(fam, reps):
                 b.step('close', c=1)
                 b.step('recv', c=1)
                 out.append(b.q().done())
+    return out
+
+
+def failed_opens(fam):
+    """a stream whose opening envelope never makes it onto the wire - the caller's context was over before NewStream,
+    or the transport refuses exactly that write while the connection stays up - has no id on the wire: nothing is
+    ever written for it (in particular no reset), its registration is released, the connection serves on;
+    and a streaming call of a method (or service) the server does not have: whatever the server makes of it
+    (goat: nothing), it answers at most once per id and the caller's cancel ends it as usual"""
+    out = []
+    for ser in (True, False):
+        for kind in ('bidi', 'cs', 'ss'):
+            for how in ('pre', 'refused', 'pre-deadline'):
+                b = B(fam, '%s open that never reaches the wire (%s, %s)' % (kind, how, 'serialising' if ser else 'by reference'), ser=ser)
+                b.step('ucall', c=1, pay='warm', hp=[ret(pay='up')])
+                if how == 'refused':
+                    b.step('fault', what='cwrite1')
+                    b.step('sopen', c=2, kind=kind, hp=[])
+                elif how == 'pre':
+                    b.step('sopen', c=2, kind=kind, what='pre', hp=[])
+                else:
+                    b.step('sopen', c=2, kind=kind, to=20, hp=[], nw=True)     # (a deadline that may fire inside the open)
+                    b.step('adv', ms=30)
+                b.q()
+                b.step('adv', ms=31000)        # a reset written by mistake would go out within the 30 s a reset write may take
+                b.q()
+                b.step('sopen', c=3, kind='bidi', hp=[dict(o='recv'), dict(o='send', pay='pong'), dict(o='drain'), ret()])
+                b.step('send', c=3, pay='ping').step('recv', c=3).step('close', c=3).step('recv', c=3)
+                out.append(b.q().done())
+        for kind in ('xbidi', 'ybidi'):
+            for n in (0, 1, 3):
+                for end in ('cancel', 'close+cancel', 'deadline'):
+                    # (the caller's envelopes reach the server in one go: whatever it answers, it has seen them all by then)
+                    b = B(fam, 'streaming call of an unknown %s, %d messages, then %s (%s)' % ('method' if kind == 'xbidi' else 'service', n, end, 'serialising' if ser else 'by reference'), ser=ser, manual=True)
+                    b.step('auto', dir='s2c', on=True)
+                    b.step('sopen', c=1, kind=kind, hp=[], **(dict(to=200) if end == 'deadline' else {}))
+                    for i in range(n):
+                        b.step('send', c=1, pay='m%d' % i)
+                    if end == 'close+cancel':
+                        b.step('close', c=1)
+                    b.step('dlv', dir='c2s', n=-1)
+                    b.step('auto', dir='c2s', on=True)
+                    b.step('recv', c=1)
+                    b.q()
+                    if end == 'deadline':
+                        b.step('adv', ms=250)
+                    else:
+                        b.step('cancel', c=1)
+                    b.q()
+                    b.step('ucall', c=2, pay='probe', hp=[ret(pay='fine')])
+                    out.append(b.q().done())
     return out
 
 
